@@ -267,3 +267,40 @@ func VerifC17_Reflexive() {
 	zzverif.Assert(filter.Or(x, filter.Null(), filter.All()).Equals(filter.Or(x, filter.Null(), filter.All())), "C17/reflexive-construction/composite")
 	zzverif.Reach("C17/reflexive")
 }
+
+// VerifC17_Nested: composites that differ only by nesting (an Or inside an And,
+// an And inside an Or, nested vs flattened, inner kind swapped) over arbitrary
+// leaves: whenever they compare equal they must agree on every object.
+func VerifC17_Nested() {
+	mk := func(and bool, fs []filter.Filter) filter.Filter {
+		if and {
+			return filter.And(fs...)
+		}
+		return filter.Or(fs...)
+	}
+	outerAnd := zzverif.NondetInt("outer", 0, 1) == 1
+	innerAnd := zzverif.NondetInt("inner", 0, 1) == 1
+	nin := zzverif.NondetInt("inner.n", 0, 2)
+	nout := zzverif.NondetInt("outer.n", 0, 1)
+	var xs, ys []filter.Filter
+	for i := 0; i < nin; i++ {
+		xs = append(xs, filter.VSymFilter{ID: i})
+	}
+	for i := 0; i < nout; i++ {
+		ys = append(ys, filter.VSymFilter{ID: 2 + i})
+	}
+	a := mk(outerAnd, append([]filter.Filter{mk(innerAnd, xs)}, ys...))
+	var b filter.Filter
+	switch zzverif.NondetInt("other", 0, 2) {
+	case 0: // flattened
+		b = mk(outerAnd, append(append([]filter.Filter{}, xs...), ys...))
+	case 1: // inner kind swapped
+		b = mk(outerAnd, append([]filter.Filter{mk(!innerAnd, xs)}, ys...))
+	default: // nested the other way round
+		b = mk(innerAnd, append([]filter.Filter{mk(outerAnd, xs)}, ys...))
+	}
+	o := filter.VSymPod("o", 0)
+	checkSound(a, b, o, "nested")
+	checkSound(b, a, o, "nested")
+	checkSound(filter.Not(a), filter.Not(b), o, "nested")
+}
